@@ -152,6 +152,22 @@ def prop_case(case):
                                  % (subset[:6], st_[:8], {s: v[:8] for s, v in got.items()}, times[:8], {s: v[:8] for s, v in want.items()})))
     except Exception as e:
         fails.append(Failure('%s:subset-summary:exception:%s' % (sim, exc_signature(e)), 'summary(nodelist) raised %r' % (e,)))
+    # history: after a subset summary the whole-population accessors must still describe the whole population
+    try:
+        t2 = [float(x) for x in full.t()]
+        if t2 != tf:
+            fails.append(Failure('%s:t()-changes-after-subset-summary' % sim, 't() after summary(nodelist=subset) has %d entries, before %d' % (len(t2), len(tf))))
+        for s_, fn in (('S', full.S), ('I', full.I), ('R', full.R)):
+            if s_ in sts and [int(x) for x in fn()] != Df[s_]:
+                fails.append(Failure('%s:%s()-changes-after-subset-summary' % (sim, s_), '%s() after summary(nodelist=subset) differs from the whole-population series' % s_))
+        tf3, D3 = full.summary()
+        if [float(x) for x in tf3] != tf or any([int(x) for x in D3[s_]] != Df[s_] for s_ in sts):
+            fails.append(Failure('%s:summary()-changes-after-subset-summary' % sim, 'summary() after summary(nodelist=subset) differs from before'))
+        st0 = full.get_statuses(nodes)
+        if any(st0[u] != naive_status(hist[u], tmin) for u in nodes):
+            fails.append(Failure('%s:get_statuses-default-time-after-subset-summary' % sim, 'get_statuses() (default time) no longer returns the statuses at tmin'))
+    except Exception as e:
+        fails.append(Failure('%s:accessor-after-subset:exception:%s' % (sim, exc_signature(e)), 'raised %r' % (e,)))
     R0 = case.get('R0') if sim in simrun.HAS_R0 else []
     zero = (case.get('rule') or {}).get('kind') == 'table' and any(d == 0 for d in case['rule']['dur'] + [x for x in case['rule']['delay'] if not isinstance(x, list)])
     nt = bool(R0) or tmin != 0 or zero or k < len(nodes)
@@ -171,7 +187,63 @@ def c10_case(draw):
     return case
 
 
+def prop_discrete_table(case):
+    """discrete_SIR under a deterministic success table and recovery rule: arrays vs full data (same rules, no draws)"""
+    import EoN
+    from . import c12
+    gc = case['gc']
+    nodes, adj = oracles.adjacency(gc)
+    pairs = [(u, v) for u in nodes for v in adj[u]]
+    success = dict(zip(pairs, case['succ']))
+    I0 = [oracles.tolabel(u) for u in case['I0']]
+    R0 = [oracles.tolabel(u) for u in case['R0']]
+    tmax = float('inf') if case['tmax'] == 'inf' else case['tmax']
+    durations = dict(zip(nodes, case['durations'])) if case['durations'] else None
+
+    def kwargs(full):
+        kw = dict(initial_infecteds=list(I0), tmin=case['tmin'], tmax=tmax, return_full_data=full)
+        if R0:
+            kw['initial_recovereds'] = list(R0)
+        if durations:
+            cnt = {}
+
+            def test_recovery(u):
+                cnt[u] = cnt.get(u, 0) + 1
+                return cnt[u] >= durations[u]
+            kw['test_recovery'] = test_recovery
+        return kw
+    budget = CallBudget(100000)
+
+    def tt(u, v):
+        budget.tick()
+        return success[(u, v)]
+    fails = []
+    try:
+        G = oracles.build_graph(gc)
+        arr = EoN.discrete_SIR(G, tt, **kwargs(False))
+        full = EoN.discrete_SIR(oracles.build_graph(gc), tt, **kwargs(True))
+        ta = [float(x) for x in arr[0]]
+        rows = list(zip(*[[int(x) for x in col] for col in arr[1:]]))
+        for i, a in enumerate(ta):
+            if a > tmax:
+                continue
+            stt = full.get_statuses(nodes, a)
+            vals = list(stt.values())
+            row = (vals.count('S'), vals.count('I'), vals.count('R'))
+            if row != rows[i]:
+                fails.append(Failure('discrete_SIR:table:statuses-differ-from-array-row%s' % (':with-test_recovery' if durations else ''),
+                                     'same deterministic rules: at t=%r the full-data object has (S,I,R)=%r, the array row is %r' % (a, row, rows[i])))
+                break
+    except RunawayError as e:
+        fails.append(Failure('discrete_SIR:table:non-termination', str(e)))
+    except Exception as e:
+        fails.append(Failure('discrete_SIR:table:exception:%s' % exc_signature(e), 'raised %r' % (e,)))
+    return Result(fails, nontrivial=bool(durations) or bool(R0), classes=['discrete-table'] + (['test_recovery'] if durations else []))
+
+
 def replay(ctx, sub, case):
+    if sub == 'discrete-table':
+        return prop_discrete_table(case).failures
     return prop_case(case).failures
 
 
@@ -185,3 +257,5 @@ def run(ctx):
     ctx.assumptions = ['continuous-time simulators consume the same draws in both return modes (asserted by C18)',
                        'discrete-time: tmax-tmin whole or infinite, deterministic rule']
     run_hypothesis(ctx, 'modes', c10_case(), prop_case, 1200 if quick else 50000, rounds=5)
+    from . import c12
+    run_hypothesis(ctx, 'discrete-table', c12.table_case(), prop_discrete_table, 400 if quick else 10000)
